@@ -1,7 +1,9 @@
 """C16: real S3TapeCassette over the fake bucket with a fake clock."""
 import datetime
 import logging
+import os
 import random
+import time
 
 import fake_s3
 from driver_common import main
@@ -56,6 +58,24 @@ def run_c16(case):
     times = case['times']
     _shift[0] = case.get('base_days', 0)
     cas, ids = populated(times, case.get('tags') or [0] * len(times), case.get('prefix', ''))
+    if case.get('tz'):
+        # the same lookup in a process whose time zone is not UTC (TZ + tzset, restored afterwards): the bounds are naive
+        # UTC datetimes and the fake clock stays UTC, so nothing may change
+        before_tz = os.environ.get('TZ')
+        os.environ['TZ'] = case['tz']
+        time.tzset()
+        try:
+            return run_logged(case, cas, ids)
+        finally:
+            if before_tz is None:
+                os.environ.pop('TZ', None)
+            else:
+                os.environ['TZ'] = before_tz
+            time.tzset()
+    return run_logged(case, cas, ids)
+
+
+def run_logged(case, cas, ids):
     if not case.get('log'):
         return lookup(case, cas, ids)
     # the same lookup in a process whose logging is switched on (root logger at the given level, a handler that formats
@@ -81,7 +101,7 @@ def lookup(case, cas, ids):
     if case.get('random'):
         random.seed(case['start'] % 1009)     # the listing is compared as a set; the seed only makes the run repeatable
     got = list(cas.iter_recording_ids('Op', start_date=at(case['start']), end_date=end, metadata=flt,
-                                      random_results=bool(case.get('random'))))
+                                      random_results=bool(case.get('random')), limit=case.get('limit')))
     idx = [ids.get(g, -1) for g in got]
     return {"listed": sorted(idx), "n": len(got), "unknown": [g for g in got if g not in ids][:3]}
 
